@@ -24,6 +24,7 @@ type Job struct {
 	Replay   *FoundViolation
 	progress *os.File
 	Seed     int
+	caseNo   int
 }
 
 func (j *Job) Thorough() bool { return j.Tier == "thorough" }
@@ -50,7 +51,16 @@ func (j *Job) Explore(caseName string, sc *Scenario, b Budget, classify func(x *
 		j.Stats.Execs++
 		return
 	}
-	e := &Explorer{T: j.T, Prop: j.Prop, Case: caseName, Sc: sc, Budget: b, Stats: j.Stats, Shard: j.Shard, NShards: j.NShards,
+	shard, nshards := j.Shard, j.NShards
+	if b.K == 0 && b.D == 0 {
+		// single-execution case: distribute whole cases over the shards
+		j.caseNo++
+		if !j.mine(j.caseNo) {
+			return
+		}
+		shard, nshards = 0, 1
+	}
+	e := &Explorer{T: j.T, Prop: j.Prop, Case: caseName, Sc: sc, Budget: b, Stats: j.Stats, Shard: shard, NShards: nshards,
 		Deadline: j.Deadline, Classify: classify, maxViol: 40, progress: j.progress}
 	e.Run()
 	j.Stats.BudgetDone[caseName] = fmt.Sprintf("k=%d d=%d capped=%v", b.K, b.D, j.Stats.Capped)
